@@ -70,7 +70,7 @@ impl Ctx {
     pub fn new(prop: &str, tier: Tier, seed: u64, level: &str) -> Ctx {
         let cap = std::env::var("VERIF_WALL_CAP_S").ok().and_then(|s| s.parse().ok()).unwrap_or(match tier {
             Tier::Quick => 600u64,
-            Tier::Thorough => 6 * 3600,
+            Tier::Thorough => 2400,
         });
         Ctx {
             prop: prop.to_string(),
